@@ -37,7 +37,7 @@ CHECK = ProfileCheck(PROFILE, ["c05"], nontrivial, classes, directed=__import__(
 RULE = ("Hypothesis-generated programs (deep frame forests, transitions, conditional auxes, stop/abort bids); after every framer "
         "run actives is compared with the AST-computed outline (cut at a running conditional aux's main frame); + reference "
         "differential. non-trivial = the outline changes >= 2 times and reaches depth >= 2; distinct = distinct program AST")
-ASSUMPTIONS = ["primary child = first attached child; generated programs declare parents before children",
+ASSUMPTIONS = ["primary child = first attached child; generated programs declare parents before children (the `under` and `forward` grids enumerate the other declaration orders)",
                "a conditional aux counts as running from the run in which its clause returned truthy until it returns falsy or its main frame exits"]
 META = {"level": LEVEL,
         "text": "Every framer run of thousands of generated programs is checked against an outline computed from the script's static structure, so any drift between the active frame and the active list (transitions, suspension, stop/abort) is caught at the tick it happens.",
@@ -85,11 +85,72 @@ def check_under(case):
     return fails
 
 
+# ------------------------------------------------------------------ frames declared before their over frames
+FORWARD_FRAMES = ["top", "mid", "leaf", "side"]     # mid in top, leaf in mid, side in top
+
+
+def forward_script(order, start, dur):
+    L = ["house h", "framer main be active first mid"]
+    for f in order:
+        if f == "top":
+            L += ["frame top", "go side if elapsed >= %s" % (0.125 * (start + dur + 3))]
+        elif f == "mid":
+            L += ["frame mid in top", "aux helper if recurred >= %d" % start]
+        elif f == "leaf":
+            L += ["frame leaf in mid", "print leaf"]
+        else:
+            L += ["frame side in top", "print side"]
+    L += ["framer helper be aux", "frame h0", "go h1 if recurred >= %d" % dur, "frame h1", "done me"]
+    return "\n".join(L) + "\n"
+
+
+def check_forward(case):
+    """The frames of one tree are declared in any order (a frame may name an over frame that is declared later); frame
+    mid is the main frame of a conditional auxiliary that runs for a while. In every tick the active frames are the
+    outline top > mid > leaf, cut behind mid while the auxiliary runs, then top > side - exactly as when every over
+    frame is declared before its under frames (the canonical declaration order is the oracle). -> failures"""
+    from vp.flo.run import run_text
+    ticks = case["start"] + case["dur"] + 7
+    text = forward_script(case["order"], case["start"], case["dur"])
+    ref = forward_script(FORWARD_FRAMES, case["start"], case["dur"])
+    tr, rr = run_text(text, ticks), run_text(ref, ticks)
+    for t_, x in ((tr, text), (rr, ref)):
+        if t_["build"] != "True" or t_.get("exc"):
+            return [("forward-build:%s" % (t_.get("exc") or t_["build"]), "build %s %s\n%s" % (t_["build"], t_.get("detail"), x))]
+    got = [(tk["snap"]["framers"].get("main") or {}).get("actives") for tk in tr["ticks"]]
+    want = [(tk["snap"]["framers"].get("main") or {}).get("actives") for tk in rr["ticks"]]
+    allowed = (["top", "mid", "leaf"], ["top", "mid"], ["top", "side"])
+    bad = [a for a in want if a not in allowed]
+    if bad or ["top", "mid"] not in want:
+        return [("forward-oracle", "canonical declaration order gives %r\n%s" % (want, ref))]
+    if got != want:
+        k = next(i for i in range(len(want)) if i >= len(got) or got[i] != want[i])
+        return [("outline-depends-on-declaration-order", "frames declared in the order %r (`mid in top` before `top`: %r): after tick %d "
+                 "the active frames are %r; with every over frame declared first they are %r (whole run %r vs %r)\n%s"
+                 % (case["order"], case["order"].index("mid") < case["order"].index("top"), k, got[k] if k < len(got) else None,
+                    want[k], got, want, text))]
+    return []
+
+
 def plan(tier):
-    return CHECK.plan(tier) + [{"part": "under", "i": i, "n": 2} for i in range(2)]
+    return CHECK.plan(tier) + [{"part": "under", "i": i, "n": 2} for i in range(2)] + [{"part": "forward"}]
 
 
 def work(shard, seed, tier):
+    if shard.get("part") == "forward":
+        acc = Acc()
+        for order in itertools.permutations(FORWARD_FRAMES):
+            for start, dur in ((1, 2), (2, 3), (3, 1)):
+                case = {"forward": True, "order": list(order), "start": start, "dur": dur}
+                fails = check_forward(case)
+                fwd = order.index("mid") < order.index("top") or order.index("leaf") < order.index("mid")
+                acc.case(key=("forward", order, start, dur), nontrivial=fwd,
+                         classes=["declaration-order", "over-frame-declared-%s" % ("later" if fwd else "first")],
+                         sample={"script": forward_script(order, start, dur)} if (order[0], start) == ("leaf", 2) and order[1] == "mid" else None)
+                for sig, what in fails:
+                    acc.fail(sig, what, case)
+        acc.note("forward over links: all 24 declaration orders of 4 frames x 3 (start, duration) of the conditional auxiliary enumerated")
+        return acc
     if shard.get("part") != "under":
         return CHECK.work(shard, seed, tier)
     acc = Acc()
@@ -113,4 +174,6 @@ def work(shard, seed, tier):
 def replay(case):
     if case.get("under"):
         return check_under(case)
+    if case.get("forward"):
+        return check_forward(case)
     return CHECK.replay(case)
